@@ -9,7 +9,10 @@ these real executions and reduces each to the lexicographic normal form of its M
 dependency relation. Required per program: no two ODPOR executions have the same normal form; their number equals the number
 of distinct normal forms of the reduction-none run; the checker's own debug-optimality verdict agrees.
 
-Mutations tried (clone-and-relink, quick tier): see the end of this docstring (filled in after the runs).
+Mutations tried (mutated sources recompiled from a worktree and relinked into a copy of the build, quick tier), all caught:
+  * ODPOR::races_computation skips the reversible races with (e + e') % 3 == 0          -> VIOLATION (classes: 3 explored of 57, ...)
+  * Execution::get_odpor_extension_from: the sleep-set / weak-initial filtering disabled (redundant wakeup sequences)
+                                                       -> VIOLATION (duplicate: 3 executions of 2 classes; debug-optimality agrees)
 """
 import json, os, re
 import vlib
@@ -20,7 +23,17 @@ import mcdep_common as D
 
 LEVEL = "model_checking"
 DRIVERS = {"mc_unit_driver": MC.DRIVERS["mc_unit_driver"]}
-META = None
+META = {"text": "For deadlock-free generated programs simgrid-mc is run with reduction none and odpor; every explored execution is "
+                "validated by TLC against the reference semantics (which also tells the complete ones), rebuilt as real transitions "
+                "in the real odpor::Execution to obtain the real pairwise depends(), and reduced by TLC (Hb.tla) to the lexicographic "
+                "normal form of its Mazurkiewicz class under that relation; per program the ODPOR executions must have pairwise "
+                "distinct normal forms, as many as the reduction-none run has classes, and the checker's debug-optimality verdict "
+                "must agree.",
+        "note": "Trusted: TLC, hooks H1/H4 and the harness that rebuilds the executions, the driver. Programs of 2-3 actors x up to 4 "
+                "operations without reachable deadlock and with at most 400 (thorough 2500) unreduced executions; DFS explorer. "
+                "Equivalence is the checker's own relation (C39 judges that relation).",
+        "technique": "simgrid-mc explorations (hooks H1/H4) + TLC trace validation (SgKernelTrace) + real depends() via mc_unit_driver "
+                     "+ TLC normal forms (HbClasses/Hb)"}
 
 
 def _complete_executions(ctx, progs, res, tag):
